@@ -2,5 +2,8 @@
    become the OCaml types; N, Z, positive, nat stay Coq datatypes). *)
 From Coq Require Import Extraction ExtrOcamlBasic.
 From GGRS Require Import Base Varint Rle Codec.
+(* Z is used by every level driver *)
+From Coq Require Import ZArith.
 Extraction Language OCaml.
-Extraction "model.ml" Codec.encode Codec.decode Codec.decode_unvalidated.
+Extraction "model.ml" Z.add N.add Nat.add
+  Codec.encode Codec.decode Codec.decode_unvalidated.
